@@ -339,13 +339,29 @@ fn ldro_kept_by_packet_params<C: Sx127xVariant>(mut r: Sx127x<RegSpi, MockIv, C>
     kani::assert(rf().get(reg) & mask == rf().init(reg) & mask, "C15: set_packet_params changes the LowDataRateOptimize bit programmed by set_modulation_params");
 }
 
-//@h id=ldro_after_modulation_sx1276_bw125 props=C15 tier=quick build=phy cost=300 timeout=1800
+//@h id=ldro_after_modulation_sx1276_bw125 props=C15 tier=thorough build=phy cost=300 timeout=1800
 //@bounds SX1276 register-file model, arbitrary prior register contents, SF6..12, any CR, LDRO decision symbolic, any frequency, BW 125 kHz (errata 2.3 branch for 62.5..250 kHz): RegModemConfig3 bit 3 after set_modulation_params equals the decision
 //@encodes Sx127x::set_modulation_params, Sx1276::set_modulation_params
 #[kani::proof]
 #[kani::unwind(26)]
 fn ldro_after_modulation_sx1276_bw125() {
     ldro_after_modulation(regradio_1276(), 0x26, 0x08, Bandwidth::_125KHz);
+}
+//@h id=ldro_bit_sx1276 props=C15 tier=quick build=phy cost=300 timeout=1800
+//@bounds SX1276 chip-specific half of set_modulation_params called directly (Sx1276::set_modulation_params; the chip-independent prefix in Sx127x::set_modulation_params writes RegDetectionOptimize/RegDetectionThreshold only and is part of the thorough ldro_after_modulation_* harnesses), register-file model, arbitrary prior register contents, SF6..12, any CR, any frequency, BW 125 kHz, LDRO decision symbolic: RegModemConfig3 bit 3 equals the decision
+//@encodes Sx1276::set_modulation_params
+#[kani::proof]
+#[kani::unwind(26)]
+fn ldro_bit_sx1276() {
+    let mut r = regradio_1276();
+    let (sf, cr) = (any_sf(), any_cr());
+    kani::assume(sf != SpreadingFactor::_5);
+    let ldro: bool = kani::any();
+    let mp = ModulationParams { spreading_factor: sf, bandwidth: Bandwidth::_125KHz, coding_rate: cr, low_data_rate_optimize: ldro as u8, frequency_in_hz: kani::any() };
+    kani::assert(block_on(Sx1276::set_modulation_params(&mut r, &mp)).is_ok(), "C15: fault-free bus");
+    kani::assert(!rf().bad, "C15: only well-formed register accesses");
+    kani::assert((rf().get(0x26) & 0x08 != 0) == ldro, "C15: the LowDataRateOptimize bit programmed by set_modulation_params differs from the decision");
+    kani::cover!(ldro, "LDRO on");
 }
 //@h id=ldro_after_modulation_sx1276_bw500 props=C15 tier=thorough build=phy cost=300 timeout=1800
 //@bounds as ldro_after_modulation_sx1276_bw125 with BW 500 kHz (AutomaticIFOn branch)
